@@ -158,11 +158,19 @@ theorem rangeDown_spec (e step : Int) (hs : step < 0) : ∀ (f : Nat) (i : Int),
           | succ k => right; exact ⟨k, by push_cast; ring, hlt⟩
     · exact ⟨[], by simp [rangeDown]; omega, by simp, by simp, hdone i hi⟩
 
+/-- the rejection test of the source (regenerated) is the documented one -/
+theorem rangeRejects_iff (start e step : Int) :
+    Gen.Sort.rangeRejects start e step = true ↔
+      ((e < start ∧ step > 0) ∨ (e > start ∧ step < 0) ∨ (e ≠ start ∧ step = 0)) := by
+  unfold Gen.Sort.rangeRejects
+  simp only [Bool.or_eq_true, Bool.and_eq_true, decide_eq_true_eq]
+  omega
+
 theorem range_result (start e step : Int)
     (h : ¬ ((e < start ∧ step > 0) ∨ (e > start ∧ step < 0) ∨ (e ≠ start ∧ step = 0))) :
     ∃ r, range start e step = .ok r ∧ SS r ∧ ∀ x, x ∈ r ↔ InRange start e step x := by
   unfold range
-  rw [if_neg h]
+  rw [if_neg (fun h' => h ((rangeRejects_iff start e step).mp h'))]
   by_cases h1 : e = start
   · subst h1
     refine ⟨[], by simp, by simp [SS], ?_⟩
@@ -216,6 +224,6 @@ theorem range_result (start e step : Int)
 theorem range_rejects (start e step : Int)
     (h : (e < start ∧ step > 0) ∨ (e > start ∧ step < 0) ∨ (e ≠ start ∧ step = 0)) :
     range start e step = .panic := by
-  unfold range; rw [if_pos h]
+  unfold range; rw [if_pos ((rangeRejects_iff start e step).mpr h)]
 
 end SortInts
